@@ -224,11 +224,69 @@ def run(tier):
                 chk.violation('%s:%s:%s' % (probs[0].split('(')[0], kind_of(sp['cls']), how), '%s restarted %s (hop %d): %s; expected %s' % (
                     sp['cls'], 'after its child was killed' if h.get('mode') == 'kill' else 'while busy', h['hop'], ', '.join(probs), h['expected']), {'spec': sp, 'hop': h})
                 break
+    # the child has reported but its process lingers: process kinds (the outcome of a remote worker becomes visible as soon
+    # as it has arrived, whatever the child process does afterwards - see DESIGN, observations)
+    ljobs = [dict(cls=cls, init_state_json=r.choice(VALUES), values=[r.choice(VALUES) for _ in range(3)], wait=wt)
+             for cls in ('StatefulProcessWorker', 'StatefulPersistentProcessWorker') for wt in ((0.5, 1.0, 1.5) if thorough else (0.5, 1.2))]
+
+    def lone(ij):
+        i, sp = ij
+        res = run_case('checks.c16:linger_case', sp, os.path.join(wd, 'l%d' % i), timeout=120)
+        cleanup(res['dir'])
+        return sp, res
+
+    for sp, res in pmap(lone, list(enumerate(ljobs)), 6):
+        chk.case((sp['cls'], 'linger', sp['wait'], rv(sp['init_state_json'])))
+        chk.count('lingering_child_cases')
+        obs = [e for e in res['events'] if e.get('ev') == 'linger_obs']
+        fin = [e for e in res['events'] if e.get('ev') == 'linger_final']
+        if not obs or not fin:
+            chk.inconclusive('lingering-child case incomplete', {'spec': sp, 'stderr': res['stderr'][-400:]})
+            continue
+        probs = []
+        for o in obs:
+            if o['is_alive'] and o['pid_running']:
+                chk.count('reads_while_reported_but_alive')
+                if o['user_state']['repr'] != rv(sp['init_state_json']):
+                    probs.append('alive-parent-sees-other-than-init')
+                    break
+        if not probs and (not fin[0]['dead'] or fin[0]['user_state']['repr'] != rv(sp['values'][-1])):
+            probs.append('state-wrong-after-death')
+        if probs:
+            chk.violation('%s:%s:reported-but-process-lingers' % (probs[0], kind_of(sp['cls'])), '%s whose child has reported and lingers, timed wait %.1f s: %s; observations %s' % (
+                sp['cls'], sp['wait'], ', '.join(probs), short([(o['is_alive'], o['user_state']['repr'], o['has_error']) for o in obs], 200)), {'spec': sp, 'obs': obs, 'final': fin})
     cleanup(wd)
     chk.assumptions = ['thread kinds are exempt from the "parent sees the initial value while alive" half (shared memory, documented)',
                        'terminate landings inside the reporting code itself are left to C01/C03 (the statement says "in any way that lets it report")',
                        'values are compared through repr()']
     return chk.finish(min_distinct=30)
+
+
+def linger_case(spec, log):
+    """The child has done its work and sent its report, but its process is still there (a non-daemon thread left behind by
+    the work): a timed wait() gives up, and until the process is really gone the parent must keep seeing the initial state."""
+    import logging
+    import time
+    logging.disable(logging.CRITICAL)
+    from vlib import vtargets
+    from vlib.case import Bounded, HANG, Raised
+    from vlib.common import pid_running
+    from vlib.wcase import get_class, enc
+    bounded = Bounded(log)
+    cls, pers = get_class(spec['cls'])
+    w = cls(vtargets.ret_value, args=([] if pers else [None, spec['values'], 'return-linger']), init_state=decode(spec['init_state_json']))
+    if pers:
+        w.enqueue(None, spec['values'], 'return-linger')
+        w.close()
+    r = bounded('timed_wait', lambda: w.wait(spec['wait']), 30)
+    for i in range(4):
+        alive = w.is_alive()
+        running = pid_running(w.pid)
+        log.ev('linger_obs', n=i, timed_wait=(r if isinstance(r, bool) else repr(r)), is_alive=alive, pid_running=running, user_state=enc(w.user_state), has_error=w.has_error)
+        time.sleep(0.2)
+    r = bounded('wait', lambda: w.wait(20), 40)
+    log.ev('linger_final', dead=(r is True), user_state=enc(w.user_state), has_error=w.has_error)
+    return {'ok': True}
 
 
 def spec_for_lifecycle(spec):
